@@ -76,6 +76,12 @@ pub struct ServerState {
     pub fail_writes_after: Option<usize>,
     /// at most this many bytes are accepted per write call
     pub write_chunk: usize,
+    /// every write fails (BrokenPipe) once the server has parsed this many client frames: 6 = the write that carries the
+    /// Client Info PDU
+    pub fail_write_when_events: Option<usize>,
+    /// what a read finds when nothing is queued: None = end of stream (0 bytes); Some(kind) = that error (a socket with a
+    /// receive timeout, or in non-blocking mode, polled while the server is silent)
+    pub empty_read_error: Option<io::ErrorKind>,
     /// accept the client's pubKeyAuth even when it does not unseal (a server that does not care, or cannot, verify it)
     pub lenient_pubkey: bool,
     /// after a faulted message: end the TLS session in an orderly way (close_notify) and say nothing more
@@ -238,6 +244,8 @@ impl ServerState {
             record_chunk: usize::MAX,
             close_after_fault: false,
             lenient_pubkey: false,
+            empty_read_error: None,
+            fail_write_when_events: None,
             fail_write_once: None,
             tls: None,
             tls_identity: 0,
@@ -630,6 +638,9 @@ impl Duplex {
         s.reads += 1;
         if s.out.is_empty() {
             s.reads_at_empty += 1;
+            if let Some(kind) = s.empty_read_error {
+                return Err(io::Error::new(kind, "nothing to read right now"));
+            }
             return Ok(0);
         }
         let n = buf.len().min(s.out.len()).min(s.read_chunk.max(1));
@@ -658,6 +669,11 @@ impl Duplex {
         if let Some(limit) = s.fail_writes_after {
             if s.bytes_written >= limit {
                 return Err(io::Error::new(io::ErrorKind::BrokenPipe, "injected"));
+            }
+        }
+        if let Some(k) = s.fail_write_when_events {
+            if s.events.len() >= k {
+                return Err(io::Error::new(io::ErrorKind::BrokenPipe, "injected: the transport died"));
             }
         }
         if let Some((n, kind)) = s.fail_write_once {
